@@ -186,6 +186,13 @@ def run(R):
             opts["enable_plural_variants"] = False
         if i % 5 == 3:
             opts["no_acronyms"] = True
+        # options that drop matches after they were found: the summary must still count what is listed
+        if i % 3 == 0:
+            opts["exclude_match"] = [gen.render(a, r.choice(["Snake", "ScreamingSnake", "Camel", "Pascal", "Kebab"]))]
+        if i % 3 == 1:
+            opts["exclude_matching_lines"] = r.choice(["^last", "x" + gen.render(a, "Snake"), "[A-Z]", gen.render(a, "Snake") + "$", "."])
+        if i % 8 == 6:
+            opts["ignore_ambiguous"] = True
         roots = None
         if i % 6 == 5:
             dirs = [e["p"] for e in tree if e.get("k") == "d"]
@@ -217,7 +224,11 @@ def run(R):
         search, replace = gen.render(a, "Snake"), gen.render(b, "Snake")
         with cli.Sandbox(tree) as sb:
             td = al.tree_dict(sb.tree_entries())
+            filt = [["--exclude-match", gen.render(a, "Camel")], ["--exclude-matching-lines", "^last|x" + search], ["--ignore-ambiguous"],
+                    ["--exclude-matching-lines", "."]][i % 4]
             for label, args, wt in (("cli plan", ["plan", search, replace, "--dry-run", "--output", "json", "--quiet"], True),
+                                    ("cli plan filtered", ["plan", search, replace, "--dry-run", "--output", "json", "--quiet"] + filt, True),
+                                    ("cli rename --dry-run filtered", ["rename", search, replace, "--dry-run", "--output", "json", "--quiet"] + filt, True),
                                     ("cli search", ["search", search, "--output", "json", "--quiet"], True),
                                     ("cli rename --dry-run", ["rename", search, replace, "--dry-run", "--output", "json", "--quiet"], True),
                                     ("cli replace --dry-run", ["replace", "--no-regex", search, replace, "--dry-run", "--output", "json"], False)):
